@@ -148,8 +148,8 @@ func qcHistory(p qcParams) func() {
 		targeted := len(c.Targets())
 		answered, replies, errs := 0, 0, 0
 		quorum, cancelled := false, false
-		var delivered []int64    // values of successful replies in delivery order
-		var snapshots [][]int64  // expected QF inputs (sorted by node id) per invocation
+		var delivered []int64   // values of successful replies in delivery order
+		var snapshots [][]int64 // expected QF inputs (sorted by node id) per invocation
 		var snapKeys [][]uint32
 		quorumAt := -1
 		var events []int
